@@ -681,7 +681,8 @@ def run(ck, repo: Repo, tier: str):
         ck.ob("R6-call-protocol", tq, "priority-function", ok, f"update_priority({short(pe, 70)})", "" if ok else f"priorities must be computed by {prio_fn}", loc(tmi, c))
         if not ok:
             continue
-        err = pe.args[0]
+        eb = bind_call(repo.func(RB + prio_fn), pe)
+        err = eb.get(positional_params(repo.func(RB + prio_fn))[0])
         ck.need(isinstance(err, ast.Name), f"{tq}: TD-error argument is not a variable")
         eds = cfg.defs_of(n.id, err.id)
         okd = len(eds) == 1 and eds[0].kind == "unpack" and isinstance(eds[0].value, ast.Call) and tuple(eds[0].path) == tuple(err_path)
